@@ -92,8 +92,32 @@ def run(tier, out, model_ok, proof):
     corp = corpus_files()
     for f in rng.sample(corp, min(len(corp), 150 if big else 40)):
         pool.append({"root.jst": open(f, "rb").read()})
+    # "tenants": different projects that use the SAME names (tags, types, enums, servers, operation ids,
+    # paths) with different content - anything keyed by name and shared between catalogs shows here
+    tenants = []
+    for t in range(12):
+        tenants.append({"root.jst": (
+            'JSIGHT 0.3\nINFO\n  Title "Tenant %d"\nSERVER @main // server of %d\n  BaseUrl "https://t%d.example/"\n'
+            'TAG @orders // Orders of tenant %d\nTAG @users // Users %d\n  Description\n    users of %d\n'
+            'TYPE @order\n{"id": %d, "kind": "k%d"}\nENUM @kind\n["a%d", "b%d"]\n'
+            'GET /orders/{id}\n  Tags @orders @users\n  OperationId getOrder\n  200 @order // order of %d\n'
+            'POST /orders\n  Tags @orders\n  Request @order\n  201\n    {\n      "k": "a%d" // {enum: @kind}\n    }\n'
+            % (t, t, t, t, t, t, t, t, t, t, t, t)
+            + "".join('GET /t/orders/%d\n  Tags @orders\n  200 any\nPOST /t/users/%d\n  Tags @users @orders\n  201 @order\n' % (i, i) for i in range(25))).encode() if t % 3 else
+            ('JSIGHT 0.3\nTYPE @order\n{"n": %d}\nGET /orders\n  200 @order\nGET /users/{u}\n  200 any // t%d\n' % (t, t)).encode()})
+    pool += tenants
+    tprobe, _ = docgen.run_build([treecorr.project_case("t%d" % i, f) for i, f in enumerate(tenants)])
+    for i in range(len(tenants)):
+        if tprobe.get("t%d" % i, {}).get("end") != "ok":
+            out.broken.append({"what": "hand-written tenant project %d is not accepted (the generator of this check has drifted from the code)" % i,
+                               "detail": docgen.err_text(tprobe.get("t%d" % i, {}))[:200]})
     jobs = []
     rounds = 12 if big else 6
+    for workers in (8, 32):
+        for k in range(3 if big else 2):
+            group = [treecorr.project_case("g%d" % i, f) for i, f in enumerate(rng.sample(tenants, 10))]
+            jobs.append({"id": "w%d_tenants_%d" % (workers, k), "mode": "conc", "group": group, "workers": workers, "shared": False})
+            jobs.append({"id": "w%d_exports_%d" % (workers, k), "mode": "conc", "group": group, "workers": min(workers, 16), "shared": False, "exports": True})
     for workers in (2, 8, 32):
         for shared in (False, True):
             for k in range(rounds):
@@ -158,7 +182,7 @@ def run(tier, out, model_ok, proof):
     out.coverage.update({
         "evaluations": compared,
         "distinct_nontrivial": ok,
-        "rule": "a -race build of the harness runs, per job, W goroutines (W in 2, 8, 32): builders - every goroutine builds each of 10 different projects (from a pool of generated type graphs, structured documents with macros and include trees, documents with an injected fault, corpus files) in its own rotation and serialises it with ToJson and ToOpenAPIJson; shared - W goroutines call ToJson, ToOpenAPIJson, ToJsonIndent, Title on ONE built catalog at once, for each of 6 projects; every result (sha256 of bytes, or error message/file/index/line/column/trace) is compared with the sequential baseline of the same process; every race report is parsed and attributed to the code performing the racing access (this repository / the schema library / the harness); non-trivial = jobs with all results equal to the baseline",
+        "rule": "a -race build of the harness runs, per job, W goroutines (W in 2, 8, 32): builders - every goroutine builds each of 10 different projects (from a pool of generated type graphs, structured documents with macros and include trees, documents with an injected fault, corpus files) in its own rotation and serialises it with ToJson and ToOpenAPIJson (some jobs use only 'tenant' projects, and in 'exports' jobs every goroutine owns one built catalog per tenant and all export them at once for 12 rounds: the same tag/type/enum/server names and paths with different content); shared - W goroutines call ToJson, ToOpenAPIJson, ToJsonIndent, Title on ONE built catalog at once, for each of 6 projects; every result (sha256 of bytes, or error message/file/index/line/column/trace) is compared with the sequential baseline of the same process; every race report is parsed and attributed to the code performing the racing access (this repository / the schema library / the harness); non-trivial = jobs with all results equal to the baseline",
         "samples": [jobs[0]["id"]],
         "jobs": len(jobs), "race_reports": nraces,
         "traces_validated_against_impl": compared,
